@@ -4,25 +4,31 @@ import QmiModel.Gen.TransportTables
 /-!
 # C14 — transport descriptors parse totally and faithfully
 
-Property theorems only (vocabulary and helper lemmas: `Lemmas/C14.lean`; model: `Model/Descriptor.lean`;
-tables regenerated from the source: `Gen/TransportTables.lean`).
+Property theorems only (vocabulary and helper lemmas: `Lemmas/C14.lean`, `Lemmas/C14Roundtrip.lean`; model:
+`Model/Descriptor.lean`; tables regenerated from the source on every run: `Gen/TransportTables.lean`).
+
+State after the repairs c763390, 794f5cc, d053f6d, 4a3416c, 8caa6aa, 72eceb6 in /repo: `total` holds at full strength
+on the current tables.  The generic theorems quantify over *all* tables; what they need of a table set is decidable
+(`EnvOk`, `AllAligned`) and re-evaluated on the regenerated tables by `decide`.
 -/
 namespace QmiModel.Descriptor
 open QmiModel.Gen.TransportTables (env)
 
 /-! ## Totality -/
 
-/-- **Classification of everything that can escape.**  For all tables that pass the decidable sanity check
-`EnvOk`, all platforms, *all* strings and all well-typed default dictionaries, `create_transport` returns a
-transport or raises the descriptor error, except in exactly four input classes, each tied to one exception type. -/
+/-- the result is a transport or the descriptor error -/
+def OkOrDescriptor (r : Res Transport) : Prop := (∃ t, r = .ok t) ∨ r = .err .descriptor
+
+/-- **Classification of everything that can escape**, for *all* tables passing the decidable sanity check `EnvOk`,
+both platforms, all strings and all well-typed default dictionaries: the only exception other than the descriptor
+error is the `TypeError` of a parameter set that does not fit the constructor signature. -/
 theorem escapes_classified (E : Env) (win : Bool) (s : Str) (d : List (Str × PyVal))
     (hE : EnvOk E = true) (hd : ∀ I ∈ E.ifaces, DefaultsTyped I d) :
     match createTransport E win s d with
     | .ok _ => True
     | .err .descriptor => True
-    | .err .valueError => HasTwoEquals s ∨ NulHost E win s d
     | .err .typeError => CtorMismatch E win s d
-    | .err .indexError => EmptyHost E win s d := by
+    | .err .valueError => False := by
   unfold createTransport
   cases hp : parseParts s with
   | err e => have := parseParts_err hp; subst this; simp
@@ -35,10 +41,7 @@ theorem escapes_classified (E : Env) (win : Bool) (s : Str) (d : List (Str × Py
       rw [pps_eq d hp hf]
       have hIm : I ∈ E.ifaces := List.mem_of_find?_eq_some hf
       cases hpp : parseParams I parts d with
-      | err e =>
-        rcases parseParams_err hpp with h | ⟨h, h2⟩
-        · subst h; simp
-        · subst h; simp only; exact Or.inl ⟨parts, hp, h2⟩
+      | err e => have := parseParams_err hpp; subst this; simp
       | ok p =>
         simp only
         cases hc : I.ctor win with
@@ -57,54 +60,8 @@ theorem escapes_classified (E : Env) (win : Bool) (s : Str) (d : List (Str × Py
             | ok attrs => simp
             | err e =>
               have ht := args_typed hcok (fun k v hkv => parseParams_typed hN (hd I hIm) hpp hkv) hb
-              rcases construct_err ht hk with h | ⟨h, hs, h1, h2⟩ | ⟨h, h1⟩
-              · subst h; simp
-              · subst h; simp only; exact Or.inr ⟨hs, ⟨I, c, p, a, hreach, hb, h1⟩, h2⟩
-              · subst h; simp only; exact ⟨I, c, p, a, hreach, hb, h1⟩
-
-
-/-- the result is a transport or the descriptor error -/
-def OkOrDescriptor (r : Res Transport) : Prop := (∃ t, r = .ok t) ∨ r = .err .descriptor
-
-/-  The first sentence of the property at full strength:
-
-      theorem total (win : Bool) (s : Str) (d : List (Str × PyVal)) (hd : ∀ I ∈ env.ifaces, DefaultsTyped I d) :
-          OkOrDescriptor (createTransport env win s d)
-
-    It is FALSE of the faithful model on the pinned tree: `total_false` below (six concrete witnesses, each
-    replayed on the implementation by the harness).  What holds is `total_partial`: totality outside four
-    exactly described input classes. -/
-
-/-- **Totality outside the four excluded classes** — all tables passing `EnvOk`, all strings, all well-typed
-defaults: a keyword part with two `'='`, a parameter set that does not fit the constructor, a host with NUL and an
-empty host are the *only* ways for another exception type to escape. -/
-theorem total_partial (E : Env) (win : Bool) (s : Str) (d : List (Str × PyVal))
-    (hE : EnvOk E = true) (hd : ∀ I ∈ E.ifaces, DefaultsTyped I d)
-    (h1 : ¬ HasTwoEquals s) (h2 : ¬ CtorMismatch E win s d) (h3 : ¬ NulHost E win s d) (h4 : ¬ EmptyHost E win s d) :
-    OkOrDescriptor (createTransport E win s d) := by
-  have h := escapes_classified E win s d hE hd
-  cases hr : createTransport E win s d with
-  | ok t => exact Or.inl ⟨t, rfl⟩
-  | err e =>
-    rw [hr] at h
-    cases e with
-    | descriptor => exact Or.inr rfl
-    | valueError => exact absurd h (by rintro (h | h); exact h1 h; exact h3 h)
-    | typeError => exact absurd h h2
-    | indexError => exact absurd h h4
-
-/-- the generated tables pass the sanity check the generic theorems need -/
-theorem gen_envOk : EnvOk env = true := by decide
-
-/-- non-vacuity: the hypotheses of `total_partial` hold for ordinary descriptors (and the result is a transport) -/
-example : ¬ HasTwoEquals "tcp:[::1]:5025:connect_timeout=2.5".toList ∧
-    ¬ CtorMismatch env false "tcp:[::1]:5025:connect_timeout=2.5".toList [] ∧
-    ¬ NulHost env false "tcp:[::1]:5025:connect_timeout=2.5".toList [] ∧
-    ¬ EmptyHost env false "tcp:[::1]:5025:connect_timeout=2.5".toList [] ∧
-    createTransport env false "tcp:[::1]:5025:connect_timeout=2.5".toList [] =
-      .ok ⟨"QMI_TcpTransport".toList, [("host".toList, .str "::1".toList), ("port".toList, .int 5025),
-                                       ("connect_timeout".toList, .flt "2.5".toList)]⟩ := by
-  refine ⟨by decide, by decide, by decide, by decide, by decide⟩
+              have := construct_err ht hk
+              subst this; simp
 
 /-- a descriptor that reaches the constructor of an interface whose table is aligned with the constructor signature
 always binds: no `TypeError` there -/
@@ -114,84 +71,80 @@ theorem aligned_never_mismatches (E : Env) (hE : EnvOk E = true) (win : Bool) (s
   have hIm : I ∈ E.ifaces := List.mem_of_find?_eq_some hf
   exact bindable_of_aligned (envOk_iface hE hIm hc).1 ha hpp
 
-/-- … so if every table is aligned, the second excluded class is empty -/
-theorem no_mismatch_of_aligned (E : Env) (win : Bool) (s : Str) (d : List (Str × PyVal)) (hE : EnvOk E = true)
-    (ha : ∀ I ∈ E.ifaces, ∀ c, I.ctor win = some c → Aligned I c = true) : ¬ CtorMismatch E win s d := by
-  rintro ⟨I, c, p, hr, hb⟩
-  obtain ⟨parts, hp, hf, hpp, hc⟩ := hr
-  have hIm : I ∈ E.ifaces := List.mem_of_find?_eq_some hf
-  exact hb (aligned_never_mismatches E hE win s d I c p ⟨parts, hp, hf, hpp, hc⟩ (ha I hIm c hc))
+/-- **Totality for every aligned set of tables**: all strings (well-formed, nearly well-formed, arbitrary), all
+well-typed default dictionaries, both platforms — a transport or the descriptor error, nothing else. -/
+theorem total_of_aligned (E : Env) (hE : EnvOk E = true) (hA : AllAligned E = true) (win : Bool) (s : Str)
+    (d : List (Str × PyVal)) (hd : ∀ I ∈ E.ifaces, DefaultsTyped I d) : OkOrDescriptor (createTransport E win s d) := by
+  have h := escapes_classified E win s d hE hd
+  cases hr : createTransport E win s d with
+  | ok t => exact Or.inl ⟨t, rfl⟩
+  | err e =>
+    rw [hr] at h
+    cases e with
+    | descriptor => exact Or.inr rfl
+    | valueError => exact h.elim
+    | typeError =>
+      obtain ⟨I, c, p, hreach, hb⟩ := h
+      obtain ⟨parts, hp, hf, hpp, hc⟩ := hreach
+      have hIm : I ∈ E.ifaces := List.mem_of_find?_eq_some hf
+      exact absurd (aligned_never_mismatches E hE win s d I c p ⟨parts, hp, hf, hpp, hc⟩ (allAligned_iface hA hIm hc)) hb
 
-/-! ### which generated tables are aligned with their constructors (recomputed on every run) -/
+/-- the tables regenerated from the current source pass the sanity check … -/
+theorem gen_envOk : EnvOk env = true := by decide
 
-theorem tcp_aligned : ∀ win c, QmiModel.Gen.TransportTables.tcp.ctor win = some c →
-    Aligned QmiModel.Gen.TransportTables.tcp c = true := by decide
-theorem vxi11_aligned : ∀ win c, QmiModel.Gen.TransportTables.vxi11.ctor win = some c →
-    Aligned QmiModel.Gen.TransportTables.vxi11 c = true := by decide
-theorem gpib_aligned : ∀ win c, QmiModel.Gen.TransportTables.gpib.ctor win = some c →
-    Aligned QmiModel.Gen.TransportTables.gpib c = true := by decide
+/-- … and every one of them is aligned with the constructors `create_transport` builds from it -/
+theorem gen_aligned : AllAligned env = true := by decide
 
+/-- **`total`, the first sentence of the property at full strength, on the current source's tables**: for every
+descriptor string, platform and well-typed defaults dictionary `create_transport` returns a transport or raises
+`QMI_TransportDescriptorException`; no other exception type escapes. -/
+theorem total (win : Bool) (s : Str) (d : List (Str × PyVal)) (hd : ∀ I ∈ env.ifaces, DefaultsTyped I d) :
+    OkOrDescriptor (createTransport env win s d) :=
+  total_of_aligned env gen_envOk gen_aligned win s d hd
 
-/-! ### negation witnesses on the pinned tree
-
-Each is the model's answer on the generated tables (`decide`), lies in the excluded class named next to it, and is
-replayed on the implementation by the harness (same exception types; see known_findings.d/C14.json).
-When one of the underlying defects is repaired in `/repo` the corresponding witness stops checking — that is the
-signal to move its known-finding entry to `fixed`. -/
-
-/-- `tcp:h:5:connect_timeout=1=2` → `ValueError` (the unpack `k, v = q` is outside the `try`) -/
-theorem total_false_two_equals :
-    createTransport env false "tcp:h:5:connect_timeout=1=2".toList [] = .err .valueError ∧
-    HasTwoEquals "tcp:h:5:connect_timeout=1=2".toList := by
-  constructor <;> decide
-
-/-- `serial:COM3` → `TypeError` (baudrate optional in the table, required by the constructor) -/
-theorem total_false_serial :
-    createTransport env false "serial:COM3".toList [] = .err .typeError ∧
-    CtorMismatch env false "serial:COM3".toList [] ∧
-    (QmiModel.Gen.TransportTables.serial.ctor false).map (Aligned QmiModel.Gen.TransportTables.serial) = some false := by
-  refine ⟨by decide, by decide, by decide⟩
-
-/-- `usbtmc:serialnr=X` → `TypeError` (vendorid/productid optional in the table, required by the constructors) -/
-theorem total_false_usbtmc :
-    createTransport env false "usbtmc:serialnr=X".toList [] = .err .typeError ∧
-    createTransport env true "usbtmc:serialnr=X".toList [] = .err .typeError ∧
-    CtorMismatch env false "usbtmc:serialnr=X".toList [] ∧
-    (QmiModel.Gen.TransportTables.usbtmc.ctor false).map (Aligned QmiModel.Gen.TransportTables.usbtmc) = some false ∧
-    (QmiModel.Gen.TransportTables.usbtmc.ctor true).map (Aligned QmiModel.Gen.TransportTables.usbtmc) = some false := by
-  refine ⟨by decide, by decide, by decide, by decide, by decide⟩
-
-/-- `udp:h:5:connect_timeout=1` → `TypeError` (the UDP table accepts a keyword the constructor does not take) -/
-theorem total_false_udp :
-    createTransport env false "udp:h:5:connect_timeout=1".toList [] = .err .typeError ∧
-    CtorMismatch env false "udp:h:5:connect_timeout=1".toList [] ∧
-    (QmiModel.Gen.TransportTables.udp.ctor false).map (Aligned QmiModel.Gen.TransportTables.udp) = some false := by
-  refine ⟨by decide, by decide, by decide⟩
-
-/-- `tcp:a\x00b:5` → `ValueError` (`inet_pton` on an embedded NUL; only `OSError` is caught) -/
-theorem total_false_nul_host :
-    createTransport env false ['t', 'c', 'p', ':', 'a', Char.ofNat 0, 'b', ':', '5'] [] = .err .valueError ∧
-    NulHost env false ['t', 'c', 'p', ':', 'a', Char.ofNat 0, 'b', ':', '5'] [] := by
-  constructor <;> decide
-
-/-- `tcp:connect_timeout=1` with defaults `{"host": "", "port": 5}` → `IndexError` (`hostname[-1]` on `""`) -/
-theorem total_false_empty_host :
+/-- non-vacuity: both outcomes occur, and the inputs that used to escape on the pinned tree (04de7e7) now give the
+descriptor error — or, for a serial port without baud rate, the documented default -/
+example :
+    createTransport env false "tcp:[::1]:5025:connect_timeout=2.5".toList [] =
+      .ok ⟨"QMI_TcpTransport".toList, [("host".toList, .str "::1".toList), ("port".toList, .int 5025),
+                                       ("connect_timeout".toList, .flt "2.5".toList)]⟩ ∧
+    createTransport env false "tcp:h:5:connect_timeout=1=2".toList [] = .err .descriptor ∧
+    createTransport env false ['t', 'c', 'p', ':', 'a', Char.ofNat 0, 'b', ':', '5'] [] = .err .descriptor ∧
     createTransport env false "tcp:connect_timeout=1".toList [("host".toList, .str []), ("port".toList, .int 5)]
-      = .err .indexError ∧
-    EmptyHost env false "tcp:connect_timeout=1".toList [("host".toList, .str []), ("port".toList, .int 5)] := by
-  constructor <;> decide
+      = .err .descriptor ∧
+    createTransport env true "usbtmc:serialnr=X".toList [] = .err .descriptor ∧
+    createTransport env false "udp:h:5:connect_timeout=1".toList [] = .err .descriptor ∧
+    createTransport env false "udp:h:5".toList [("connect_timeout".toList, .flt "1.5".toList)] =
+      .ok ⟨"QMI_UdpTransport".toList, [("host".toList, .str "h".toList), ("port".toList, .int 5)]⟩ ∧
+    createTransport env false "serial:COM3".toList [] =
+      .ok ⟨"QMI_SerialTransport".toList, [("device".toList, .str "COM3".toList), ("baudrate".toList, .int 115200),
+        ("bytesize".toList, .int 8), ("parity".toList, .str "N".toList), ("stopbits".toList, .flt "1.0".toList),
+        ("rtscts".toList, .bool false)]⟩ := by
+  refine ⟨by decide, by decide, by decide, by decide, by decide, by decide, by decide, by decide⟩
 
-/-- **the full-strength statement is false on the pinned tree** -/
-theorem total_false :
-    ¬ ∀ (win : Bool) (s : Str) (d : List (Str × PyVal)), (∀ I ∈ env.ifaces, DefaultsTyped I d) →
-        OkOrDescriptor (createTransport env win s d) := by
-  intro h
-  have hd : ∀ I ∈ env.ifaces, DefaultsTyped I [] := by
-    intro I _ k v hk
-    simp [dictOf, dupdate, dget] at hk
-  have := h false "serial:COM3".toList [] hd
-  rw [total_false_serial.1] at this
-  rcases this with ⟨t, ht⟩ | ht <;> cases ht
+/-- the defaults hypothesis of `total` is satisfiable by a non-trivial dictionary -/
+example : ∀ I ∈ env.ifaces, DefaultsTyped I [("port".toList, .int 5025), ("baudrate".toList, .int 9600),
+    ("connect_timeout".toList, .flt "7.5".toList), ("host".toList, .str []), ("rtscts".toList, .bool true)] := by
+  intro I hI
+  apply defaultsTyped_of_check
+  revert I
+  decide
+
+/-- Historical example about a *constant* (not about the source): with the serial table and constructor signature of
+the pinned tree 04de7e7 — `baudrate` optional in the table, without default in the constructor — the table is not
+aligned and `serial:COM3` escapes with `TypeError`.  (Repaired in /repo by 4a3416c.) -/
+example :
+    let pinnedSerial : Iface :=
+      { name := "serial".toList,
+        positionals := [⟨"device".toList, .str, true⟩],
+        keywords := [⟨"baudrate".toList, .int, false⟩],
+        ctorLinux := some { cls := "QMI_SerialTransport".toList, kind := .gpib,
+                            args := [("device".toList, none), ("baudrate".toList, none)] },
+        ctorWin := none }
+    AllAligned { ifaces := [pinnedSerial], udpReserved := 35999, localhostAddr := [] } = false ∧
+    createTransport { ifaces := [pinnedSerial], udpReserved := 35999, localhostAddr := [] } false "serial:COM3".toList []
+      = .err .typeError := by
+  constructor <;> decide
 
 /-! ## Faithfulness -/
 
@@ -312,10 +265,10 @@ example : createTransport env false "tcp:localhost:5025".toList [] =
 /-! ## Round trip: the formats QMI itself produces parse back to the values they were formatted from -/
 
 /-- **Listed USBTMC resources.**  For every vendor and product id in the 16-bit range and every serial number
-without `':'` and `'='`, on both platforms: the descriptor `_format_resources` builds
+without `':'` (it may contain `'='`), on both platforms: the descriptor `_format_resources` builds
 (`usbtmc:vendorid=0x%04x:productid=0x%04x:serialnr=%s`) gives a transport holding exactly these three values. -/
 theorem roundtrip_usbtmc (win : Bool) (v p : Nat) (sn : Str) (hv : v ≤ 65535) (hp : p ≤ 65535)
-    (hsn : ∀ c ∈ sn, c ≠ ':' ∧ c ≠ '=') :
+    (hsn : ∀ c ∈ sn, c ≠ ':') :
     ∃ cls, createTransport env win (renderUsbtmc (Int.ofNat v) (Int.ofNat p) sn) [] =
       .ok ⟨cls, [(sVendorid, .int v), (sProductid, .int p), (sSerialnr, .str sn)]⟩ := by
   obtain ⟨_, hxv, _⟩ := fmt04x_spec v
@@ -324,26 +277,22 @@ theorem roundtrip_usbtmc (win : Bool) (v p : Nat) (sn : Str) (hv : v ≤ 65535) 
     intro pre body h; unfold isKw at *; rw [List.any_append, h]; rfl
   have conv : ∀ n : Nat, convKw .int ('0' :: 'x' :: fmt04x (Int.ofNat n)) = .ok (.int n) := by
     intro n; simp only [convKw, startsWith0x, beq_self_eq_true, Bool.and_self, if_true, hex_read]; rfl
-  have sp : ∀ (body : Str), (∀ c ∈ body, c ≠ '=') →
-      splitEq2 (sVendorKw ++ body) = [sVendorid, '0' :: 'x' :: body] ∧
-      splitEq2 (sProductKw ++ body) = [sProductid, '0' :: 'x' :: body] ∧
-      splitEq2 (sSerialKw ++ body) = [sSerialnr, body] := by
-    intro body hb
-    have h0 : breakEq body = none := breakEq_none body hb
-    have h1 : breakEq ('0' :: 'x' :: body) = none :=
-      breakEq_none _ (by intro c hc; simp only [List.mem_cons] at hc; rcases hc with rfl | rfl | hc; decide; decide; exact hb c hc)
+  have sp : ∀ (body : Str),
+      splitEq (sVendorKw ++ body) = [sVendorid, '0' :: 'x' :: body] ∧
+      splitEq (sProductKw ++ body) = [sProductid, '0' :: 'x' :: body] ∧
+      splitEq (sSerialKw ++ body) = [sSerialnr, body] := by
+    intro body
     refine ⟨?_, ?_, ?_⟩
-    · simp [splitEq2, sVendorKw, sVendorid, breakEq, h0]
-    · simp [splitEq2, sProductKw, sProductid, breakEq, h0]
-    · simp [splitEq2, sSerialKw, sSerialnr, breakEq, h0]
+    · simp [splitEq, sVendorKw, sVendorid, breakEq]
+    · simp [splitEq, sProductKw, sProductid, breakEq]
+    · simp [splitEq, sSerialKw, sSerialnr, breakEq]
   exact usbtmc_eval win _ _ _ _ _ _ sn v p (parseParts_usbtmc v p sn hsn)
     (kw _ _ (by decide)) (kw _ _ (by decide)) (kw _ _ (by decide))
-    (sp _ (lowerHex_plain_chars hxv).2.1).1 (sp _ (lowerHex_plain_chars hxp).2.1).2.1
-    (sp sn (fun c hc => (hsn c hc).2)).2.2 (conv v) (conv p) (by omega) (by omega)
+    (sp _).1 (sp _).2.1 (sp sn).2.2 (conv v) (conv p) (by omega) (by omega)
 
-/-- non-vacuity, with the widest id and a serial number containing brackets and a space -/
-example : ∃ cls, createTransport env true (renderUsbtmc 65535 0 "A [1]".toList) [] =
-    .ok ⟨cls, [(sVendorid, .int 65535), (sProductid, .int 0), (sSerialnr, .str "A [1]".toList)]⟩ :=
+/-- non-vacuity, with the widest id and a serial number containing brackets, a space and `'='` -/
+example : ∃ cls, createTransport env true (renderUsbtmc 65535 0 "A [1]=b".toList) [] =
+    .ok ⟨cls, [(sVendorid, .int 65535), (sProductid, .int 0), (sSerialnr, .str "A [1]=b".toList)]⟩ :=
   roundtrip_usbtmc true 65535 0 _ (by decide) (by decide) (by decide)
 
 /-- what is rendered is what `_format_resources` writes for such a resource (the hexadecimal form, zero padded) -/
@@ -367,7 +316,7 @@ structure HostWF (h : Str) : Prop where
   noBracket : h.head? ≠ some '['
 
 theorem HostWF.ne_nil {h : Str} (w : HostWF h) : h ≠ [] := by
-  intro e; subst e; have := w.valid; simp [validateHost] at this
+  intro e; subst e; have := w.valid; revert this; decide
 
 /-- **Bracketed IPv6 and plain hosts, TCP.**  `"tcp:" + format_address_and_port((host, port))` — the host in square
 brackets exactly when it contains a colon — gives a transport with exactly that host and port, for every
